@@ -91,6 +91,13 @@ var c16changes = []c16change{
 	{name: "free-variable-none-to-value", factoryBefore: `None`, factoryAfter: `"x"`, bodyBefore: `print(v)`, bodyAfter: `print(v)`},
 	{name: "free-variable-value-to-none", factoryBefore: `0`, factoryAfter: `None`, bodyBefore: `print(v, w)`, bodyAfter: `print(v, w)`},
 	{name: "default-parameter-none-to-value", paramsBefore: `self, a=None, b=1`, paramsAfter: `self, a=1, b=1`, bodyBefore: `print(a, b)`, bodyAfter: `print(a, b)`},
+	// ... and numbers that change type without changing value (1 == 1.0: such an element is kept, not changed), alone and
+	// next to an element that does change
+	{name: "constant-retyped", bodyBefore: `print(1, 2, "k %d")`, bodyAfter: `print(1.0, 2, "k %d")`},
+	{name: "constant-retyped-and-constant", bodyBefore: `print(1, "a %d")`, bodyAfter: `print(1.0, "b %d")`},
+	{name: "global-tuple-retyped-and-changed", preBefore: "G%d = (1, 2, \"x\", 3)\n", preAfter: "G%d = (1.0, 2, \"y\", 3.0)\n", bodyBefore: `print(G%d)`, bodyAfter: `print(G%d)`},
+	{name: "global-list-retyped-shorter", preBefore: "G%d = [1, \"x\", 2]\n", preAfter: "G%d = [1.0, \"y\"]\n", bodyBefore: `print(G%d)`, bodyAfter: `print(G%d)`},
+	{name: "default-parameter-retyped-and-changed", paramsBefore: `self, a=(0, 1, "p")`, paramsAfter: `self, a=(0.0, 1.0, "q")`, bodyBefore: `print(a)`, bodyAfter: `print(a)`},
 	{name: "default-parameter-none-kept", paramsBefore: `self, a=None, b=1`, paramsAfter: `self, a=None, b=2`, bodyBefore: `print(a, b)`, bodyAfter: `print(a, b)`},
 }
 
@@ -292,16 +299,78 @@ func c16shownDiffFaithful(d diff.ValueDiff, o, n starlark.Value, path string, de
 			fails = append(fails, fmt.Sprintf("%s: %d edits, %d keys removed, added or changed", path, got, want))
 		}
 	case *diff.SliceableDiff:
-		for _, ev := range d.Edits() {
-			e, ok := ev.(*diff.Edit)
-			if !ok || e.Kind() != diff.EditKindReplace {
-				continue
-			}
-			for i := 0; i < e.Len(); i++ {
-				if inner, ok := e.Index(i).(diff.ValueDiff); ok {
-					fails = append(fails, c16shownDiffFaithful(inner, inner.Old(), inner.New(), path+"(..)", depth+1)...)
+		// the sequence clause: kept + deleted + old sides of replacements are the old value's elements, kept + added +
+		// new sides the new value's, in order (up to Starlark's equality, which is not "same type": 1 == 1.0)
+		os, ok1 := o.(starlark.Sliceable)
+		ns, ok2 := n.(starlark.Sliceable)
+		if !ok1 || !ok2 {
+			return append(fails, path+": sequence diff of values that are not both sequences")
+		}
+		elems := func(v starlark.Value) (r []starlark.Value) {
+			if s, ok := v.(starlark.Sliceable); ok {
+				for i := 0; i < s.Len(); i++ {
+					r = append(r, s.Index(i))
 				}
 			}
+			return r
+		}
+		stringlike := func(v starlark.Value) bool {
+			switch v.(type) {
+			case starlark.String, starlark.Bytes:
+				return true
+			}
+			return false
+		}
+		oStr, nStr := stringlike(o), stringlike(n)
+		var olds, news []starlark.Value
+		for _, ev := range d.Edits() {
+			e, ok := ev.(*diff.Edit)
+			if !ok {
+				fails = append(fails, path+": an edit that is not an Edit")
+				continue
+			}
+			switch e.Kind() {
+			case diff.EditKindCommon:
+				olds = append(olds, elems(e.Sliceable)...)
+				news = append(news, elems(e.Sliceable)...)
+			case diff.EditKindDelete:
+				olds = append(olds, elems(e.Sliceable)...)
+			case diff.EditKindAdd:
+				news = append(news, elems(e.Sliceable)...)
+			case diff.EditKindReplace:
+				for i := 0; i < e.Len(); i++ {
+					inner, ok := e.Index(i).(diff.ValueDiff)
+					if !ok {
+						fails = append(fails, fmt.Sprintf("%s: entry %d of a replace edit is %s: it has neither an old nor a new side", path, i, e.Index(i).String()))
+						continue
+					}
+					if oStr && nStr {
+						olds = append(olds, elems(inner.Old())...)
+						news = append(news, elems(inner.New())...)
+					} else {
+						olds = append(olds, inner.Old())
+						news = append(news, inner.New())
+						fails = append(fails, c16shownDiffFaithful(inner, inner.Old(), inner.New(), path+"(..)", depth+1)...)
+					}
+				}
+			}
+		}
+		sameSeq := func(got []starlark.Value, want starlark.Sliceable) bool {
+			if len(got) != want.Len() {
+				return false
+			}
+			for i, g := range got {
+				if !same(g, want.Index(i)) {
+					return false
+				}
+			}
+			return true
+		}
+		if !sameSeq(olds, os) {
+			fails = append(fails, fmt.Sprintf("%s: kept + deleted + old sides of the edits are %d elements %.80s, the old value is %.80s", path, len(olds), starlark.Tuple(olds).String(), o.String()))
+		}
+		if !sameSeq(news, ns) {
+			fails = append(fails, fmt.Sprintf("%s: kept + added + new sides of the edits are %d elements %.80s, the new value is %.80s", path, len(news), starlark.Tuple(news).String(), n.String()))
 		}
 	}
 	return fails
